@@ -11,7 +11,7 @@ COALESCENT_GRID = ("skygrid", "piecewise-constant", "piecewise-exponential", "pi
 
 FACTORS = {
     "cmd": ["advi", "hmc", "mcmc", "map"],
-    "model": ["JC69", "K80", "HKY", "SYM", "GTR", "SRD06"],
+    "model": ["JC69", "K80", "HKY", "SYM", "GTR", "SRD06", "LG", "WAG", "MG94"],
     "categories": [1, 4],
     "invariant": [False, True],
     "clock": [None, "strict", "ucln", "horseshoe"],
@@ -39,11 +39,16 @@ CORE = ["cmd", "model", "clock", "heights", "treeprior"]
 
 
 def to_argv(cfg, data):
-    a = [cfg["cmd"], "-i", str(data / "aln.fa")]
+    ymd = cfg.get("_data") == "ymd"
+    aln = "aln_ymd.fa" if ymd else ("aln_codon.fa" if cfg.get("model") == "MG94" else "aln.fa")
+    a = [cfg["cmd"]] + ([] if cfg.get("_poisson") else ["-i", str(data / aln)])
     clock = cfg.get("clock")
     regression = cfg.get("init") in ("heights_init_regression", "rate_init_regression")
-    a += ["-t", str(data / (("rooted_subst.nwk" if regression else "rooted.nwk") if clock else "unrooted.nwk"))]
+    rooted = "rooted_ymd.nwk" if ymd else ("rooted_subst.nwk" if regression else "rooted.nwk")
+    a += ["-t", str(data / (rooted if clock else "unrooted.nwk"))]
     a += ["-m", cfg.get("model", "JC69")]
+    if cfg.get("model") == "MG94" and "--genetic_code" not in (cfg.get("extra") or []) and not cfg.get("_no_code"):
+        a += ["--genetic_code", "1"]
     if cfg.get("categories", 1) > 1:
         a += ["-C", str(cfg["categories"])]
     if cfg.get("invariant"):
@@ -122,11 +127,72 @@ def to_argv(cfg, data):
         a += ["--coalescent_temperature", "0.5"]
     elif init == "disable_time_aware":
         a += ["--disable_time_aware"]
+    a += [x.replace("DATA/", str(data) + "/") for x in (cfg.get("extra") or [])]
     return a
 
 
 def key(cfg):
-    return tuple((k, cfg.get(k)) for k in FACTORS)
+    return tuple((k, cfg.get(k)) for k in FACTORS) + (tuple(cfg.get("extra") or ()),)
+
+
+# every documented option once, on a configuration it concerns: (sub-commands, base factors, raw extra arguments)
+_STRICT = {"clock": "strict", "treeprior": "constant"}
+SINGLE_OPTIONS = [
+    # --- evolution options
+    (("hmc", "advi"), {"model": "HKY"}, ["--frequencies", "empirical"]),
+    (("hmc",), {"model": "HKY"}, ["--frequencies", "equal"]),
+    (("hmc",), {"model": "HKY"}, ["--frequencies", "0.1,0.2,0.3,0.4"]),
+    (("hmc",), {"model": "MG94", "_no_code": True}, []),     # MG94 without --genetic_code
+    (("hmc", "advi"), _STRICT, ["--dates", "0"]),
+    (("hmc", "advi"), _STRICT, ["--dates", "DATA/dates.csv"]),
+    (("hmc",), _STRICT, ["--date_regex", r"_(\d+\.?\d*)$"]),
+    (("hmc",), dict(_STRICT, _data="ymd"), ["--date_regex", r"_(\d+)-(\d+)-(\d+)$", "--date_format", "yyyy-MM-dd"]),
+    (("hmc",), {"model": "MG94"}, ["--genetic_code", "2"]),
+    (("hmc", "advi"), {}, ["--use_path"]),
+    (("hmc",), {}, ["--use_ambiguities"]),
+    (("hmc",), {}, ["--use_tip_states"]),
+    (("hmc", "advi"), _STRICT, ["--location_regex", r"_(\d+)"]),
+    (("hmc", "advi"), _STRICT, ["--metadata", "DATA/meta.csv", "--trait", "location"]),
+    (("advi",), dict(_STRICT, _poisson=True), ["--poisson"]),
+    (("hmc",), {"clock": "strict", "treeprior": "skyride"}, ["--disable_gmrf_rescaling"]),
+    # --- hmc
+    (("hmc",), _STRICT, ["--iter", "0"]), (("hmc",), _STRICT, ["--iter", "17"]),
+    (("hmc",), _STRICT, ["--step_size", "0.05", "--steps", "3"]),
+    (("hmc",), _STRICT, ["--log_every", "7", "--stem", "run1"]),
+    (("hmc",), _STRICT, ["--warmup", "10"]), (("hmc",), _STRICT, ["--warmup", "0"]),
+    (("hmc",), _STRICT, ["--mass_matrix", "dense"]),
+    (("hmc",), _STRICT, ["--adapt_mass_matrix"]),
+    (("hmc",), _STRICT, ["--adapt_step_size", "dualaveraging"]),
+    (("hmc",), _STRICT, ["--adapt_step_size", "adaptive", "--target_acc_prob", "0.65"]),
+    (("hmc",), _STRICT, ["--split"]),
+    (("hmc",), _STRICT, ["--join", "tree.ratios.unres,tree.root_height.unshifted.unres"]),
+    # --- mcmc
+    (("mcmc",), _STRICT, ["--iter", "0"]), (("mcmc",), _STRICT, ["--iter", "23", "--log_every", "5", "--target_acc_prob", "0.3"]),
+    # --- map
+    (("map",), _STRICT, ["--lr", "0.5", "--max_iter", "7", "--max_eval", "9", "--tolerance_grad", "1e-4",
+                         "--tolerance_change", "1e-8", "--history_size", "11", "--line_search_fn", "strong_wolfe"]),
+    # --- advi
+    (("advi",), _STRICT, ["--iter", "0"]), (("advi",), _STRICT, ["--iter", "0", "--samples", "0"]),
+    (("advi",), _STRICT, ["--samples", "0"]), (("advi",), _STRICT, ["--iter", "19", "--lr", "0.01", "--samples", "3"]),
+    (("advi",), _STRICT, ["--elbo_samples", "0"]), (("advi",), _STRICT, ["--elbo_samples", "10,5"]),
+    (("advi",), _STRICT, ["--grad_samples", "2", "--K_grad_samples", "3", "--K_elbo_samples", "2"]),
+    (("advi",), _STRICT, ["--tol_rel_obj", "0.05", "--convergence_every", "10"]),
+    (("advi",), _STRICT, ["--entropy"]), (("advi",), _STRICT, ["--stem", "run2"]),
+    (("advi",), _STRICT, ["--divergence", "KLpq"]), (("advi",), _STRICT, ["--checkpoint_all"]),
+    (("advi",), {}, ["-q", "realnvp"]),
+    (("advi",), _STRICT, ["-q", "Normal(tree.ratios.unres,tree.root_height.unshifted.unres)"]),
+]
+
+
+def single_options():
+    base = {"model": "JC69", "categories": 1, "invariant": False, "clock": None, "heights": "ratio", "treeprior": None,
+            "grid": None, "cutoff": None, "family": "meanfield", "distribution": "Normal", "init": None}
+    for cmds, over, extra in SINGLE_OPTIONS:
+        for cmd in cmds:
+            c = dict(base, cmd=cmd)
+            c.update({k: v for k, v in over.items()})
+            c["extra"] = list(extra)
+            yield c
 
 
 INIT_NEEDS = {
@@ -161,6 +227,10 @@ INIT_NEEDS = {
 
 
 def normalise(cfg):
+    return _normalise(cfg)
+
+
+def _normalise(cfg):
     """map a raw row of the covering array to a SENSIBLE configuration: factor levels that make no sense in the
     context of the others are reset (a tree prior needs a clock; grid/cutoff go with the grid coalescents and
     BDSK; an initialisation switch must concern a parameter that exists)"""
